@@ -1,4 +1,4 @@
-from types import GenericAlias
+from types import GenericAlias, UnionType
 from typing import *  # necessary for eval()
 
 from pedantic.type_checking_logic.check_types import get_type_arguments
@@ -181,7 +181,7 @@ def _update_context(context: Dict[str, Any], type_: Any) -> Dict[str, Any]:
 
     if isinstance(type_, str):
         context[type_] = type_
-    elif str(type_).startswith('typing') or isinstance(type_, GenericAlias):
+    elif str(type_).startswith('typing') or isinstance(type_, (GenericAlias, UnionType)):
         type_arguments = get_type_arguments(cls=type_)
 
         for type_argument in type_arguments:
